@@ -29,7 +29,7 @@ def owns(rule, flags):
 
 def make_case(rng, i):
     return F.basic_case(rng, PROFILE, hist=(4, 14), drivers=("sync", "inloop"), p_unknown=0.05,
-                        async_modes=("none", "none", "all", "half"))
+                        async_modes=("none", "none", "all", "half"), p_style=0.2)
 
 
 def signature(case, ck, log, fault):
